@@ -664,7 +664,8 @@ def _run_case(ck, case):
             if not vec_near(al, mn, 1e-8):
                 ck.corr("solve_density_estimation_dimension_wise", case, np.asarray(al).tolist(), [float(v) for v in mn])
             if not vec_near(al, normalise_ref(classes is not None, raw, wref), 1e-8):
-                ck.viol("surpluses-solve-the-system", tags, case, {"impl": np.asarray(al).tolist()[:8]})
+                ck.viol("surpluses-solve-the-system", tags, case, {"impl": np.asarray(al).tolist()[:8],
+                        "reference": [float(v) for v in normalise_ref(classes is not None, raw, wref)][:8]})
             check_normalised(ck, al, wref, case, tags)
             ctx.count("solve_dimwise")
 
